@@ -6,7 +6,8 @@
 //!   * by the real `RSPEngine` in `OperationMode::MultiThread`, once per schedule seed (rows grouped by the
 //!     hook's processed-firings counter; quiescence = the engine was dropped and the worker left its loop).
 //! Case: {"w","s","query": RSP-QL text, "rules": N3 text, "evs": [{"nt": line, "id": n, "ts": t}], "stop": bool,
-//!        "seeds": [n...], "stream": name or null (null = legacy `add`)}
+//!        "seeds": [n...], "stream": name or null (null = legacy `add`),
+//!        "lag_from": optional event index from which the worker is held back until everything was pushed}
 //! Result: {"contents": [[k, [ids]]], "st": [[k, [row]]], "mt": [{"seed", "firings": [[row]], "late": n}]}
 //!   k = index of the event whose arrival triggered the firing, or -1 for the flush done by `stop()`.
 //!   row = [[var, value]...] sorted by var.
@@ -128,11 +129,28 @@ fn mix(x: &mut u64) -> u64 {
 fn run_multi(case: &Value, evs: &[Ev], stop: bool, expected: usize, seed: u64, timeout_ms: u64) -> Result<Value, String> {
     verif_hooks::reset();
     verif_hooks::set_schedule_seed(seed);
+    // "lagging worker" schedule: from event index `lag_from` on the window worker is held at its yield points
+    // (hook `hold_sites`, sites 1-2 = worker loop) until the producer has pushed every event (and called stop());
+    // then it is released and has to work off everything that was queued meanwhile.  Deterministic: no timing.
+    let lag_from: Option<usize> = case["lag_from"].as_u64().map(|v| v as usize);
+    const WORKER_SITES: u64 = (1 << 1) | (1 << 2);
+    if lag_from == Some(0) {
+        verif_hooks::hold_sites(WORKER_SITES); // before the worker thread exists
+    }
     let sink: Arc<Mutex<Vec<(usize, Row)>>> = Arc::new(Mutex::new(Vec::new()));
-    let mut engine = build(case["query"].as_str().unwrap(), case["rules"].as_str().unwrap_or(""), OperationMode::MultiThread, Arc::clone(&sink))?;
+    let mut engine = match build(case["query"].as_str().unwrap(), case["rules"].as_str().unwrap_or(""), OperationMode::MultiThread, Arc::clone(&sink)) {
+        Ok(e) => e,
+        Err(e) => {
+            verif_hooks::hold_sites(0);
+            return Err(e);
+        }
+    };
     let stream = case["stream"].as_str();
     let mut prod = seed ^ 0x5151_5151;
-    for e in evs.iter() {
+    for (k, e) in evs.iter().enumerate() {
+        if lag_from == Some(k) {
+            verif_hooks::hold_sites(WORKER_SITES);
+        }
         for t in engine.parse_data(&e.nt) {
             feed(&mut engine, stream, t, e.ts);
         }
@@ -155,6 +173,8 @@ fn run_multi(case: &Value, evs: &[Ev], stop: bool, expected: usize, seed: u64, t
     if stop {
         engine.stop();
     }
+    let queued_at_release = expected.saturating_sub(verif_hooks::firings_processed());
+    verif_hooks::hold_sites(0); // release a held worker: everything has been pushed
     // Quiescence without sleeping on a guess: dropping the engine drops the window and with it the sender
     // of the content channel; the detached worker drains what was sent, leaves its loop and the hook counts
     // the exit.  From then on the processed-firings counter and the sink are final.
@@ -183,7 +203,7 @@ fn run_multi(case: &Value, evs: &[Ev], stop: bool, expected: usize, seed: u64, t
         }
     }
     let panicked = PANICKED.swap(false, Ordering::SeqCst);
-    Ok(json!({"seed": seed, "firings": firings.into_iter().map(rows_json).collect::<Vec<_>>(), "processed": processed,
+    Ok(json!({"seed": seed, "lag_from": lag_from, "queued_at_release": queued_at_release, "firings": firings.into_iter().map(rows_json).collect::<Vec<_>>(), "processed": processed,
               "late": late, "timeout": timed_out, "worker_panicked": panicked}))
 }
 
